@@ -412,6 +412,7 @@ def register(reg):
             params=dict(self=C.Const(None), requiredProps=C.Const(None), dependencies=C.Const(None)),
             setup=setup_lazy,
             post=post_lazy,
+            replay=replay_required_properties,
             properties=("C15",),
         )
     )
@@ -446,6 +447,7 @@ def register(reg):
             params=dict(mapping=C.Const(None)),
             setup=setup_hash,
             post=post_hash,
+            replay=replay_options_hash,
             env={"str": _str_builtin()},
             properties=("C15",),
         ),
@@ -694,6 +696,43 @@ def replay_closure_order(inputs, clause):
         "order = [cells.get(id(d), '') for d in sc.dependencies]\nscene, its = sc.generate()\nprint('ORDER', ''.join(order), its)\n"
     )
     return _run_order_script(script, "a requirement calling 6 helper closures, each over its own random value")
+
+
+def replay_required_properties(inputs, clause):
+    """The REAL LazilyEvaluable.__init__ in processes with different string-hash seeds, and with permuted inputs."""
+    import os
+    import subprocess
+    import sys
+
+    code = "from scenic.core.lazy_eval import LazilyEvaluable as L; print(L({'width', 'heading', 'position', 'yaw', 'parentOrientation'})._requiredProperties, L(['width', 'heading', 'width'])._requiredProperties)"
+    outs = set()
+    for seed in ("1", "2", "3"):
+        env = dict(os.environ)
+        env["PYTHONPATH"] = os.path.join(extract.REPO, "src") + os.pathsep + env.get("PYTHONPATH", "")
+        env["PYTHONHASHSEED"] = seed
+        r = subprocess.run([sys.executable, "-c", code], capture_output=True, text=True, env=env, timeout=90)
+        if r.returncode != 0:
+            raise RuntimeError(r.stderr[-300:])
+        outs.add(r.stdout.strip())
+    if len(outs) > 1:
+        return f"LazilyEvaluable({{'width','heading','position','yaw','parentOrientation'}})._requiredProperties differs between processes with PYTHONHASHSEED 1, 2, 3: {sorted(outs)}"
+    want = "('heading', 'parentOrientation', 'position', 'width', 'yaw') ('heading', 'width')"
+    if outs != {want}:
+        return f"_requiredProperties is {outs.pop()}, expected the sorted, duplicate-free tuples {want}"
+    return None
+
+
+def replay_options_hash(inputs, clause):
+    """The REAL deterministicHash on the same mapping built in different insertion orders."""
+    import itertools as it
+
+    from scenic.core.serialization import deterministicHash
+
+    items = [("mode2D", True), ("scenario", "Main"), ("params", {"a": 1}), (5, 1.5)]
+    digests = {deterministicHash(dict(p)) for p in it.permutations(items)}
+    if len(digests) > 1:
+        return f"deterministicHash gives {len(digests)} different digests for the same 4-entry mapping built in different insertion orders"
+    return None
 
 
 def replay_rng_frame(inputs, clause):
